@@ -17,6 +17,8 @@ import (
 	"sync"
 	"time"
 
+	"github.com/twpayne/go-geom/encoding/wkbcommon"
+
 	"verif/engine"
 	"verif/pure"
 	"verif/sched17"
@@ -27,6 +29,9 @@ type Scenario struct {
 	Fns     []string `json:"fns"`
 	Inputs  []string `json:"inputs"`
 	Choices []int    `json:"choices,omitempty"`
+	// Limits > 0: the scenario runs with wkbcommon.MaxGeometryElements configured to
+	// {0, Limits, Limits, Limits} (set before the calls start; the library may only read it)
+	Limits int `json:"limits,omitempty"`
 }
 
 type Violation struct {
@@ -104,6 +109,18 @@ func scenarios(thorough bool) []Scenario {
 			}
 		}
 	}
+	// the binary decoders again with element limits configured (a setting the caller makes once,
+	// before any call; the solo results are taken under the same setting): 4 at every level, so
+	// that the collections of the inputs sit at or just under the limit
+	for _, sc := range append([]Scenario{}, out...) {
+		dec := func(n string) bool {
+			return strings.Contains(n, "wkb") && (strings.Contains(n, "Unmarshal") || strings.Contains(n, "Scan") || strings.Contains(n, "decoders"))
+		}
+		if dec(sc.Fns[0]) && dec(sc.Fns[1]) {
+			sc.Limits = 4
+			out = append(out, sc)
+		}
+	}
 	if thorough {
 		// three threads on the functions that reach the orientation predicate
 		for _, tri := range [][]string{{"OrientationIndex(bigxy+xy)", "xy.ConvexHullFlat", "lineintersector.LineIntersectsLine(robust)"}} {
@@ -122,8 +139,14 @@ type prepared struct {
 	glob  string
 }
 
+var defaultLimits = wkbcommon.MaxGeometryElements
+
 func prepare(sc Scenario) (*prepared, error) {
 	all := registry
+	wkbcommon.MaxGeometryElements = defaultLimits
+	if sc.Limits > 0 {
+		wkbcommon.MaxGeometryElements = [4]int{0, sc.Limits, sc.Limits, sc.Limits}
+	}
 	p := &prepared{sc: sc}
 	shared := map[string]*pure.Input{}
 	for k := range sc.Fns {
